@@ -9,8 +9,18 @@ Exit 0 held / 1 VIOLATION line / 2 harness error. Writes /verif/evidence/C14.jso
 import json, os, re, subprocess, sys, time
 
 V = os.path.dirname(os.path.dirname(os.path.abspath(__file__)))
-CRATE = os.path.join(V, "miri", "c14")
 ENV = dict(os.environ, CARGO_NET_OFFLINE="true")
+# per property: crate, extra interpreter flags, (programs, seeds, batch) for quick / thorough, what runs
+TABLE = {
+    "C14": dict(crate="c14", flags="", quick=(24, 8, 6), thorough=(240, 16, 8)),
+    "C02": dict(crate="c02", flags="", quick=(6, 8, 1), thorough=(6, 64, 1)),
+    "C03": dict(crate="c03", flags="", quick=(8, 8, 4), thorough=(8, 64, 4)),
+    # crossbeam-epoch: its intrusive list needs Tree Borrows; garbage still awaiting an epoch at exit is not a leak
+    "C05": dict(crate="c05", flags=" -Zmiri-tree-borrows -Zmiri-ignore-leaks", quick=(16, 4, 4), thorough=(16, 48, 4)),
+    "C16": dict(crate="c16", flags="", quick=(4, 8, 2), thorough=(4, 64, 2)),
+    "C20": dict(crate="c20", flags="", quick=(4, 8, 1), thorough=(4, 64, 1)),
+}
+CRATE = None
 BASEFLAGS = "-Zmiri-preemption-rate=0.1"
 
 
@@ -23,8 +33,12 @@ def run(first, count, seeds, single_seed=None, timeout=3000):
 
 def main():
     args = sys.argv[1:]
+    global CRATE, BASEFLAGS
     prop = args[0]
-    assert prop == "C14"
+    assert prop in TABLE, prop
+    CRATE = os.path.join(V, "miri", TABLE[prop]["crate"])
+    BASEFLAGS = BASEFLAGS + TABLE[prop]["flags"]
+    append = "--append" in args
     tier = os.environ.get("VERIF_TIER", "quick")
     replay = None
     i = 1
@@ -41,13 +55,14 @@ def main():
         rc, out, err, flags = run(r["program"], 1, None, single_seed=r["miri_seed"])
         if rc != 0:
             print(err[-3000:], file=sys.stderr)
-            print(f"VIOLATION property=C14 replay={replay}")
+            print(f"VIOLATION property={prop} replay={replay}")
             sys.exit(1)
-        print(f"replay of {replay} no longer violates C14")
+        print(f"replay of {replay} no longer violates {prop}")
         sys.exit(0)
-    nprog, nseeds, batch = (24, 8, 6) if tier == "quick" else (240, 16, 8)
-    budget = float(os.environ.get("VERIF_BUDGET_S", "120" if tier == "quick" else "900"))
-    first = seed * 1000
+    nprog, nseeds, batch = TABLE[prop]["quick" if tier == "quick" else "thorough"]
+    budget = float(os.environ.get("VERIF_MIRI_BUDGET_S", "120" if tier == "quick" else "600"))
+    # C14's programs are generated from the program number; the other crates enumerate a few fixed variants
+    first = seed * 1000 if prop == "C14" else 0
     execs = 0
     progs_done = 0
     handovers = {}
@@ -80,8 +95,8 @@ def main():
             q, s, e, fl = found
             msg = "\n".join(l for l in e.splitlines() if l.startswith("error") or "panicked" in l or "Undefined Behavior" in l or "leaked" in l)[:1500]
             os.makedirs(os.path.join(V, "replays"), exist_ok=True)
-            path = os.path.join(V, "replays", f"C14-miri-{seed}-{q}-{s}.json")
-            json.dump({"property": "C14", "scenario": "miri", "engine": "miri", "verif_seed": seed, "program": q, "miri_seed": s, "miriflags": fl,
+            path = os.path.join(V, "replays", f"{prop}-miri-{seed}-{q}-{s}.json")
+            json.dump({"property": prop, "scenario": "miri", "engine": "miri", "verif_seed": seed, "program": q, "miri_seed": s, "miriflags": fl,
                        "violation": {"class": "miri-error", "detail": msg}, "repo_head": subprocess.run(["git", "-C", "/repo", "rev-parse", "HEAD"], capture_output=True, text=True).stdout.strip(), "hooks": "none (guard off: the shipped token stream)"}, open(path, "w"), indent=1)
             print(msg, file=sys.stderr)
             violation = path
@@ -111,10 +126,23 @@ def main():
                         "the copy-on-write type is reached through its public faces only (SharedString, Key labels); Arc<[Label]>-backed slices have no public constructor"],
     }
     os.makedirs(os.path.join(V, "evidence"), exist_ok=True)
-    json.dump(ev, open(os.path.join(V, "evidence", "C14.json"), "w"), indent=1)
-    print(f"[C14:miri] programs={progs_done} x seeds={nseeds} executions={execs} wall={wall:.1f}s", file=sys.stderr)
+    evpath = os.path.join(V, "evidence", f"{prop}.json")
+    if append and os.path.exists(evpath):
+        # second engine for a dsim-decided property: recorded next to the dsim coverage
+        base = json.load(open(evpath))
+        base["coverage"]["miri"] = {"executions": execs, "programs": progs_done, "interpreter_seeds_per_program": nseeds, "flags": BASEFLAGS, "wall_s": wall,
+                                    "what": "the same property exercised by a small plain-std-thread program under Miri's seeded scheduler (pre-emption at basic-block granularity, weak-memory emulation, data-race / use-after-free / leak detection) through shadow crates that build the shipped source with the guard off",
+                                    "violations": 1 if violation else 0}
+        base["wall_s"] = base.get("wall_s", 0) + wall
+        if violation:
+            base["violations"] = base.get("violations", 0) + 1
+        json.dump(base, open(evpath, "w"), indent=1)
+    else:
+        ev["property_id"] = prop
+        json.dump(ev, open(evpath, "w"), indent=1)
+    print(f"[{prop}:miri] programs={progs_done} x seeds={nseeds} executions={execs} wall={wall:.1f}s", file=sys.stderr)
     if violation:
-        print(f"VIOLATION property=C14 replay={violation}")
+        print(f"VIOLATION property={prop} replay={violation}")
         sys.exit(1)
     sys.exit(0)
 
